@@ -142,6 +142,35 @@ Lemma ushr_of_fits a a' k : fits 32 a -> cg a a' -> Z.shiftr a k = ushr a' k.
 Proof. intros Ha H. rewrite <- (ushr_of_mod a a' k H). unfold fits in Ha. change (2 ^ 32) with N32 in Ha.
   rewrite Z.mod_small by lia. reflexivity. Qed.
 
+(* ------------------------------------------------------------------ assembling a word with | or ^ instead of + *)
+Lemma disjoint_shiftl w a b k : 0 <= w <= k -> fits w a -> Z.land a (Z.shiftl b k) = 0.
+Proof.
+  intros Hk Ha. apply Z.bits_inj'. intros n Hn. rewrite Z.land_spec, Z.bits_0.
+  destruct (Z.lt_ge_cases n k) as [Hlt|Hge].
+  - rewrite (Z.shiftl_spec_low b k n Hlt). apply andb_false_r.
+  - rewrite (fits_testbit w a ltac:(lia) Ha n ltac:(lia)). reflexivity.
+Qed.
+Lemma lor_is_add w a b k : 0 <= w <= k -> fits w a -> Z.lor a (Z.shiftl b k) = a + Z.shiftl b k.
+Proof. intros Hk Ha. pose proof (disjoint_shiftl w a b k Hk Ha) as D.
+  rewrite (Z.add_nocarry_lxor _ _ D). symmetry. apply Z.lxor_lor. exact D. Qed.
+Lemma lxor_is_add w a b k : 0 <= w <= k -> fits w a -> Z.lxor a (Z.shiftl b k) = a + Z.shiftl b k.
+Proof. intros Hk Ha. symmetry. apply Z.add_nocarry_lxor. apply (disjoint_shiftl w a b k Hk Ha). Qed.
+Lemma cg_eq_l x y z : x = y -> cg y z -> cg x z.
+Proof. intros ->. exact (fun H => H). Qed.
+
+(* ------------------------------------------------------------------ bytes *)
+Lemma land_255_id b : fits 8 b -> Z.land b 255 = b.
+Proof. unfold fits. intro H. change 255 with (Z.ones 8). rewrite Z.land_ones by lia. apply Z.mod_small. exact H. Qed.
+Lemma is_byte_fits b : is_byte b = true -> fits 8 b.
+Proof. unfold is_byte, fits. intro H. apply andb_prop in H. destruct H as [H0 H1].
+  apply Z.leb_le in H0. apply Z.ltb_lt in H1. change (2 ^ 8) with 256. lia. Qed.
+Lemma bytes_ok_Forall l : bytes_ok l = true -> Forall (fits 8) l.
+Proof. unfold bytes_ok. rewrite forallb_forall. intro H. apply Forall_forall. intros x Hx. apply is_byte_fits, H, Hx. Qed.
+Lemma Forall_app_l {A} (P : A -> Prop) l1 l2 : Forall P (l1 ++ l2) -> Forall P l1.
+Proof. rewrite Forall_app. tauto. Qed.
+Lemma Forall_app_r {A} (P : A -> Prop) l1 l2 : Forall P (l1 ++ l2) -> Forall P l2.
+Proof. rewrite Forall_app. tauto. Qed.
+
 (* ------------------------------------------------------------------ tactics: widths *)
 Ltac is_zlit c :=
   lazymatch c with
@@ -196,6 +225,20 @@ Ltac strip e :=
   | Z.sub ?a ?b => let p := strip a in let q := strip b in constr:(cg_sub _ _ _ _ p q)
   | Z.mul ?a ?b => let p := strip a in let q := strip b in constr:(cg_mul _ _ _ _ p q)
   | Z.opp ?a => let p := strip a in constr:(cg_opp _ _ p)
+  | Z.lor ?a (Z.shiftl ?b ?k) =>
+      match goal with
+      | _ => let f := constr:(ltac:(fits_tac) : fits k a) in let hk := constr:(ltac:(split; lit_goal') : 0 <= k <= k) in
+             let p := strip a in let q := strip (Z.shiftl b k) in
+             constr:(cg_eq_l _ _ _ (lor_is_add k a b k hk f) (cg_add _ _ _ _ p q))
+      | _ => let p := strip a in let q := strip (Z.shiftl b k) in constr:(cg_lor _ _ _ _ p q)
+      end
+  | Z.lxor ?a (Z.shiftl ?b ?k) =>
+      match goal with
+      | _ => let f := constr:(ltac:(fits_tac) : fits k a) in let hk := constr:(ltac:(split; lit_goal') : 0 <= k <= k) in
+             let p := strip a in let q := strip (Z.shiftl b k) in
+             constr:(cg_eq_l _ _ _ (lxor_is_add k a b k hk f) (cg_add _ _ _ _ p q))
+      | _ => let p := strip a in let q := strip (Z.shiftl b k) in constr:(cg_lxor _ _ _ _ p q)
+      end
   | Z.lxor ?a ?b => let p := strip a in let q := strip b in constr:(cg_lxor _ _ _ _ p q)
   | Z.lor ?a ?b => let p := strip a in let q := strip b in constr:(cg_lor _ _ _ _ p q)
   | Z.land ?a ?b => let p := strip a in let q := strip b in constr:(cg_land _ _ _ _ p q)
@@ -274,6 +317,15 @@ Proof.
   rewrite app_nth2 by lia. f_equal. lia.
 Qed.
 
+Lemma py_index_app_neg (pre l : list Z) (e : Z) (j : nat) :
+  e < 0 -> Z.of_nat (length (pre ++ l)) + e = Z.of_nat (length pre) + Z.of_nat j -> py_index (pre ++ l) e = nth j l 0.
+Proof.
+  intros Hneg He. unfold py_index. destruct (Z.ltb_spec e 0) as [_|H]; [|lia]. rewrite He.
+  destruct (Z.ltb_spec (Z.of_nat (length pre) + Z.of_nat j) 0) as [H|H]; [lia|].
+  replace (Z.to_nat (Z.of_nat (length pre) + Z.of_nat j)) with (length pre + j)%nat by lia.
+  rewrite app_nth2 by lia. f_equal. lia.
+Qed.
+
 Lemma land_m4 n : 0 <= n -> Z.land n (-4) = 4 * (n / 4).
 Proof.
   intro H. change (-4) with (Z.lnot 3). rewrite <- Z.ldiff_land. change 3 with (Z.ones 2).
@@ -295,14 +347,32 @@ Ltac index_norm :=
       first [ rewrite (py_index_app pre l e 0) by (cbn [length]; lia)
             | rewrite (py_index_app pre l e 1) by (cbn [length]; lia)
             | rewrite (py_index_app pre l e 2) by (cbn [length]; lia)
-            | rewrite (py_index_app pre l e 3) by (cbn [length]; lia) ]
+            | rewrite (py_index_app pre l e 3) by (cbn [length]; lia)
+            | rewrite (py_index_app_neg pre l e 0) by (rewrite ?app_length; cbn [length]; lia)
+            | rewrite (py_index_app_neg pre l e 1) by (rewrite ?app_length; cbn [length]; lia)
+            | rewrite (py_index_app_neg pre l e 2) by (rewrite ?app_length; cbn [length]; lia)
+            | rewrite (py_index_app_neg pre l e 3) by (rewrite ?app_length; cbn [length]; lia) ]
   end;
   cbn [nth].
+
+(* bytes: with  fits 8 b  in the context,  b & 255  is b (on both sides of the goal) *)
+Ltac byte_facts :=
+  repeat match goal with
+  | H : Forall (fits 8) (_ ++ _) |- _ =>
+      let H1 := fresh "Hb" in let H2 := fresh "Hb" in
+      pose proof (Forall_app_l _ _ _ H) as H1; pose proof (Forall_app_r _ _ _ H) as H2; clear H
+  | H : Forall (fits 8) (_ :: _) |- _ => inversion H; subst; clear H
+  | H : Forall (fits 8) [] |- _ => clear H
+  end.
+Ltac byte_masks :=
+  repeat match goal with
+  | H : fits 8 ?b |- context [Z.land ?b 255] => rewrite (land_255_id b H)
+  end.
 
 Ltac decide_ifs :=
   repeat match goal with
   | |- context [if ?c then _ else _] =>
-      let E := fresh "E" in destruct c eqn:E; try (exfalso; clear - E; lia)
+      let E := fresh "E" in destruct c eqn:E; try (exfalso; lia)
   end.
 
 Ltac model_unfold := cbv beta iota zeta delta [blocks mix_block fmix mask32 ushr MM M32 SEED].
@@ -313,19 +383,28 @@ Ltac loop_body_tac :=
   let b3 := fresh "b3" in let rest := fresh "rest" in let h := fresh "h" in let j := fresh "j" in
   let Hd := fresh "Hd" in let Hj := fresh "Hj" in
   intros pre1 b0 b1 b2 b3 rest h j Hd Hj; cbv beta; subst;
+  byte_facts;
   rewrite <- ?app_assoc; cbn [app];
   rewrite ?app_length in *; cbn [length] in *;
-  index_norm; decide_ifs; model_unfold; solve32.
+  index_norm; decide_ifs; model_unfold; byte_masks; solve32.
+
+(* an early exit taken only by the empty input: there the loop result is the initial value *)
+Ltac empty_case :=
+  try match goal with
+      | Hq0 : ?q = 0%nat -> ?H1 = _ |- _ => rewrite Hq0 by lia
+      end.
 
 Ltac tail_tac :=
-  rewrite ?app_length in *; cbn [length] in *;
-  index_norm; decide_ifs; model_unfold; solve32.
+  unfold SEED in *; rewrite ?app_length in *; cbn [length] in *;
+  byte_facts; index_norm; decide_ifs; empty_case; model_unfold; byte_masks; solve32.
 
 Ltac gen_eq_tac :=
   let data := fresh "data" in let q := fresh "q" in let pre := fresh "pre" in let tail := fresh "tail" in
   let Hpre := fresh "Hpre" in let Htail := fresh "Htail" in
-  intro data;
+  let Hb := fresh "Hbytes" in
+  intros data Hb; apply bytes_ok_Forall in Hb;
   destruct (split4 data) as (q & pre & tail & -> & Hpre & Htail);
+  pose proof (Forall_app_l _ _ _ Hb) as Hbpre; pose proof (Forall_app_r _ _ _ Hb) as Hbtail; clear Hb;
   unfold pure_murmur2, pure_murmur2_seed;
   autounfold with gen_defs; cbv beta iota zeta;
   rewrite ?py_range_pos by lia;
@@ -340,8 +419,10 @@ Ltac gen_eq_tac :=
         by (cbn [Nat.add]; loop_body_tac);
       rewrite (blocks_loop F idx tail Htail q pre 0%nat h0 Hpre HF);
       clear HF;
-      let H1 := fresh "H1" in
-      generalize (fold_left F (map idx (seq 0 q)) h0); intro H1
+      let H1 := fresh "H1" in let Hq0 := fresh "Hq0" in
+      set (H1 := fold_left F (map idx (seq 0 q)) h0) in *;
+      assert (Hq0 : q = 0%nat -> H1 = h0) by (intro; subst q; reflexivity);
+      clearbody H1
   end;
   destruct tail as [|t0 [|t1 [|t2 [|t3 tail']]]]; [ | | | | cbn [length] in Htail; lia ];
   tail_tac.
